@@ -266,21 +266,23 @@ From Onsager Require Import Model.Cache Proofs.Cache_proofs.
 Import ListNotations.
 (* values are numbers; key = (vTK id, rest id); cfg = id.  Cached arrays of (cfg, vTK id) and results get distinct
    codes; a result computed from a corrupted GF/etav is a poison code. *)
-Definition cc (cf c : nat) : list nat := [1 + 10 * c + 1000 * cf; 2 + 10 * c + 1000 * cf; 3 + 10 * c + 1000 * cf].
-Definition cr (cf : nat) (k : nat * nat) (cont : list nat) : list nat :=
-  let okg := Nat.eqb (nth 0 cont 0) (nth 0 (cc cf (fst k)) 0) in
-  let oke := Nat.eqb (nth 2 cont 0) (nth 2 (cc cf (fst k)) 0) in
+(* ez: the crystal has no site vector basis, the bias correction etav is the zero array for every key *)
+Definition cc (ez : bool) (cf c : nat) : list nat :=
+  [1 + 10 * c + 1000 * cf; 2 + 10 * c + 1000 * cf; if ez then 3 + 1000 * cf else 3 + 10 * c + 1000 * cf].
+Definition cr (ez : bool) (cf : nat) (k : nat * nat) (cont : list nat) : list nat :=
+  let okg := Nat.eqb (nth 0 cont 0) (nth 0 (cc ez cf (fst k)) 0) in
+  let oke := Nat.eqb (nth 2 cont 0) (nth 2 (cc ez cf (fst k)) 0) in
   let code (ok : bool) j := if ok then 100000 + j + 10 * snd k + 1000 * fst k + 50000 * cf else 900000 + j in
   (* Lss, Lsv use the cached GF; L1vv uses GF and etav; L0vv is the cached array handed through *)
   [nth 1 cont 0; code okg 1; code okg 2; code (okg && oke) 3].
 Definition OP := op nat (nat * nat) nat.
-Definition model_run (rm : list mode) (sm : list bool) (c0 : nat) (ops : list OP) :=
-  run nat 0 (nat * nat) nat nat fst Nat.eqb Nat.eqb cc cr rm sm (init nat nat nat c0) ops.
-Definition model_pure (rm : list mode) := pure nat 0 (nat * nat) nat nat fst cc cr rm.
+Definition model_run (ez : bool) (rm : list mode) (sm : list bool) (c0 : nat) (ops : list OP) :=
+  run nat 0 (nat * nat) nat nat fst Nat.eqb Nat.eqb (cc ez) (cr ez) rm sm (init nat nat nat c0) ops.
+Definition model_pure (ez : bool) (rm : list mode) := pure nat 0 (nat * nat) nat nat fst (cc ez) (cr ez) rm.
 (* per Lij: which components equal the fresh value *)
-Definition verdicts (rm : list mode) (sm : list bool) (c0 : nat) (ops : list OP) : list (list bool) :=
-  map (fun x => map (fun p => Nat.eqb (fst p) (snd p)) (combine (snd x) (model_pure rm (fst (fst x)) (snd (fst x)))))
-      (model_run rm sm c0 ops).
+Definition verdicts (ez : bool) (rm : list mode) (sm : list bool) (c0 : nat) (ops : list OP) : list (list bool) :=
+  map (fun x => map (fun p => Nat.eqb (fst p) (snd p)) (combine (snd x) (model_pure ez rm (fst (fst x)) (snd (fst x)))))
+      (model_run ez rm sm c0 ops).
 Fixpoint lb_eqb (a b : list bool) : bool :=
   match a, b with [] , [] => true | x :: a', y :: b' => Bool.eqb x y && lb_eqb a' b' | _, _ => false end.
 Fixpoint first_diff (i : nat) (a b : list (list bool)) : nat :=
@@ -290,8 +292,8 @@ Fixpoint first_diff (i : nat) (a b : list (list bool)) : nat :=
   | _, _ => 9999
   end.
 (* 0 = the implementation's verdicts are the model's ; i = first differing Lij call (1-based) *)
-Definition run_hist (c : list mode * list bool * nat * list OP * list (list bool)) : nat :=
-  let '(rm, sm, c0, ops, impl) := c in first_diff 1 (verdicts rm sm c0 ops) impl.
+Definition run_hist (c : bool * list mode * list bool * nat * list OP * list (list bool)) : nat :=
+  let '(ez, rm, sm, c0, ops, impl) := c in first_diff 1 (verdicts ez rm sm c0 ops) impl.
 Definition lbool_eqb := lb_eqb.
 """
 
@@ -509,6 +511,12 @@ def run(ck):
         sm = dynamic_store_modes(d, pool.input((1, 4), (0, 0)), pool.input((1, 4), (1, 0)))
         dyn_sm = sm if dyn_sm is None or dyn_sm == sm else "inconsistent"
         ck.case(key=("dynamic-modes", nm), nontrivial=True, kind="shares_memory")
+    etazero = {}
+    for nm, pool in pools.items():
+        d = pool.fresh((1, 4)); d.Lij(*pool.input((1, 4), (1, 1)))
+        etazero[nm] = not bool(np.abs(np.asarray(d.GFcalc.eta)).max() > 1e-12)
+    ck.extra["bias_correction_zero"] = etazero
+    if all(etazero.values()): raise RuntimeError("no pool crystal with a non-zero bias correction: the history pool is blind to etav")
     ck.extra["dynamic_modes"] = dyn
     ck.extra["dynamic_store_shares_buffer"] = dyn_sm
     if static is not None:
@@ -631,7 +639,7 @@ def run(ck):
     terms, idx = [], []
     for i, (nm, ops, verd, info, exc, wr) in enumerate(hist):
         if exc is None:
-            terms.append("(%s, %s, 0%%nat, %s, %s)" % (modes_term(modes), smode_term(smode), ops_term(ops), coq_list([coq_list([coq_bool(b) for b in v]) for v in verd])))
+            terms.append("(%s, %s, %s, 0%%nat, %s, %s)" % (coq_bool(etazero[nm]), modes_term(modes), smode_term(smode), ops_term(ops), coq_list([coq_list([coq_bool(b) for b in v]) for v in verd])))
             idx.append(i)
     try:
         codes = run_nat_cases(ck, "hist", IMPORTS, "run_hist", terms, chunk=40)
